@@ -191,6 +191,15 @@ impl PdfError {
             _ => false
         }
     }
+    /// The reference names an object that does not exist (or is free), whether the error comes
+    /// straight from the cross-reference table or from a typed load that wrapped it.
+    pub fn is_missing_object(&self) -> bool {
+        match self {
+            PdfError::NullRef { .. } | PdfError::FreeObject { .. } => true,
+            PdfError::Shared { ref source } => source.is_missing_object(),
+            _ => false
+        }
+    }
 }
 datasize::non_dynamic_const_heap_size!(PdfError, 0);
 
